@@ -16,6 +16,7 @@ RULE = ("random histories of 1-40 operations over {add at each level with level-
         "exhaustive histories up to length 3 (thorough 4) over a 14-symbol alphabet; arrays real/complex, 1x1 .. 16x12. "
         "distinct = the operation-kind sequence (level, dtype class, tag class, accepted/refused); non-trivial iff at least two additions "
         "were accepted or one addition was accepted and the resolution was reduced.")
+RULE = RULE + " Round-7 workloads: tags include pairs with the same string form (1, '1', 1.0; 0, '0')."
 ASSUMPTIONS = ["the caller does not mutate an array after adding it (the object may keep a reference)",
                "views of never-initialised storage read as zero (None or an all-zero placeholder)",
                "whether an addition at a level coarser than the current storage level is accepted is left to the implementation; "
